@@ -522,18 +522,24 @@ func c05Layering(c *Ctx, rule string) {
 			return true
 		})
 		lits := f.compositeLitsIn(f.Decl.Body, "sql", spec.node)
-		okLit := len(lits) == 1 && kvField(lits[0], "LHS") != nil
-		okRHS := false
+		// at least one node of the layer's kind is built, and EVERY right side that is parsed here is parsed
+		// by this same layer (a node may be assembled in several steps, e.g. to re-associate a conjunction)
+		okLit := len(lits) >= 1
+		okRHS, nRHS := true, 0
 		inspectBody(f.Decl.Body, func(x ast.Node) bool {
 			if as, ok := x.(*ast.AssignStmt); ok && len(as.Lhs) == 2 && len(as.Rhs) == 1 && strings.HasSuffix(exprKey(as.Lhs[0]), ".RHS") {
 				if call, ok := as.Rhs[0].(*ast.CallExpr); ok {
-					if fn := f.Callee(call); fn != nil && fn.Name() == spec.self {
-						okRHS = true
+					nRHS++
+					if fn := f.Callee(call); fn == nil || fnName(fn) != spec.self {
+						okRHS = false
 					}
 				}
 			}
 			return true
 		})
+		if nRHS == 0 {
+			okRHS = false
+		}
 		// other keyword must not be matched here
 		other := map[string]string{"OR": "AND", "AND": "OR"}[spec.tok]
 		matchesOther := false
@@ -1077,6 +1083,10 @@ func c06Arms(c *Ctx, rule string) {
 			}
 			arm := &ast.BlockStmt{List: cc.Body}
 			key := f.Name + "|" + cst.Name()
+			if cst.Name() != "INNER_JOIN" && cst.Name() != "LEFT_JOIN" && cst.Name() != "RIGHT_JOIN" {
+				c.Undecided(rule, key, "%s is a join type the rules have never seen: what its arm has to do (condition or not, padding or not) is not known to them", cst.Name())
+				continue
+			}
 			if len(cc.List) > 1 {
 				// several join types share one arm (their difference is decided by a flag inside): the per-arm
 				// shape rules do not apply
